@@ -85,6 +85,12 @@ def run(ctx: Ctx) -> None:
         m = trees.routes_disagree(build(c[0], share=True))
         if m:
             return "the ways of obtaining the markup (get_html_string, str, repr, _repr_html_, render, tagify) disagree: " + m
+        # the same tree with every tag's children arriving through append / extend / insert(TagList) / insert(list) /
+        # single inserts / += instead of the constructor has the same layout
+        alt = safe_call(lambda: trees.build_routed(c[0]).get_html_string(c[1], c[2]))
+        if alt != ("ok", want):
+            return ("a tree whose children arrived through append / extend / insert / += (instead of the constructor) "
+                    f"is laid out differently: {alt!r}")
         return None
 
     differential(
